@@ -9,6 +9,13 @@ the same constants. One row per case:
     cat.slice.<ty> <[e;e;..]>*
     cat.from_iter.<chain> str|chr <items the equivalent std chain yields>*
     cat.k.*   the phase functions of konst_kernel called directly, also with a wrong N (see kernel_cases)
+    cat.compile <macro> <frag> <decl>/<use> <NAME>   accept|reject: does the invocation compile when the
+    cat.compile_m ...                                 caller's item NAME is mentioned inside `$frag`
+                                                      (name hygiene of the expansions, see hygiene_cases)
+
+Forms `L*` (long_cases): pieces / separators / element lists of 40..300 bytes (elements); forms
+`h:<decl>/<use>:<NAME>` (hygiene_cases): the argument mentions a caller item called like an identifier of the
+expansion.
 
 The request text is computed twice, by this generator and by the program from the real constants; a
 difference is a broken check. A case whose constants do not compile (const-evaluation error =
@@ -23,7 +30,7 @@ STR_SEPS = ["", "-", "ñ", "\U0001F600", "; ", "€ñ"]
 CHR_SEPS = ["-", "ñ", "€", "\U0001F600"]
 
 PRELUDE = r'''
-#![allow(unused, non_upper_case_globals)]
+#![allow(unused, non_upper_case_globals, non_camel_case_types, non_snake_case)]
 use konst::string::{self, str_concat, str_join};
 use konst::slice::slice_concat;
 fn hx(b: &[u8]) -> String {
@@ -37,6 +44,10 @@ trait Tok { fn tok(&self) -> String; }
 impl Tok for u8 { fn tok(&self) -> String { format!("{}", self) } }
 impl Tok for u16 { fn tok(&self) -> String { format!("{}", self) } }
 impl Tok for i64 { fn tok(&self) -> String { format!("{}", self) } }
+impl Tok for u32 { fn tok(&self) -> String { format!("{}", self) } }
+impl<const N: usize> Tok for [u8; N] {
+    fn tok(&self) -> String { self.iter().map(|e| format!("{}", e)).collect::<Vec<_>>().join(",") }
+}
 impl Tok for () { fn tok(&self) -> String { "u".to_string() } }
 impl Tok for &str { fn tok(&self) -> String { hx(self.as_bytes()) } }
 fn lst<T: Tok>(x: &[T]) -> String {
@@ -428,8 +439,359 @@ def kernel_cases(tier):
     return out
 
 
+# ------------------------------------------------------------------------------------------------
+# LONG inputs: pieces, separators and element lists of 40..300 bytes (elements). The copy loops of the
+# fill phase run once per byte; anything that treats long pieces differently (block copies, chunked
+# loops, a length kept in a narrower type) is only reachable with lengths around 64 / 128 / 256.
+# ------------------------------------------------------------------------------------------------
+
+BOUNDARY = (63, 64, 65, 127, 128, 129, 255, 256, 257)
+MB = ["ñ", "€", "\U0001F600", "é", "汉", "ü", "\U0001D11E", "Ж"]
+LCH = ["a", "ñ", "€", "\U0001F600", "z", "é", "\U00010000", "߿"]
+
+
+def long_lengths(tier):
+    """every residue mod 16 (hence mod 8) right around 64, 128 and 256, plus the ends of the range"""
+    ls = set(range(57, 73)) | set(range(121, 137)) | set(range(249, 265))
+    ls |= {40, 41, 47, 48, 55, 56, 96, 100, 160, 192, 200, 299, 300}
+    if tier != "quick":
+        ls |= set(range(40, 301))
+    return sorted(ls)
+
+
+def long_text(n, flavor, salt=0):
+    """a str of exactly n bytes without NUL and without a period (LCG stream); flavor "a": ASCII, "m":
+    densely multi-byte (2/3/4-byte scalars), so that an unwritten or misplaced byte breaks the UTF-8"""
+    x = (salt * 2654435761 + n * 40503 + (7 if flavor == "a" else 11)) % (1 << 31)
+    out, used = [], 0
+    while used < n:
+        x = (x * 1103515245 + 12345) % (1 << 31)
+        c = chr(0x21 + (x >> 16) % 94) if flavor == "a" else MB[(x >> 16) % len(MB)]
+        if used + len(c.encode()) > n:
+            c = chr(0x61 + (x >> 16) % 26)
+        out.append(c)
+        used += len(c.encode())
+    return "".join(out)
+
+
+def sep_parts_of(kind, s):
+    if kind == "s":
+        return f"const S: &str = {rs_str(s)};", "s:" + hx(s.encode()), "seps(S)", "S"
+    return f"const S: char = {rs_chr(s)};", "c:%x" % ord(s), "sepc(S)", "&*S.to_string()"
+
+
+def mk_concat_str(form, ps, how="s"):
+    lit = ", ".join(rs_str(p) for p in ps)
+    if how == "a":
+        consts, arg = f"const A: &[&str; {len(ps)}] = &[{lit}];", "A"
+    elif how == "i":
+        consts, arg = f"const A: &[&str] = &[{lit}];", f"&[{lit}]"
+    else:
+        consts, arg = f"const A: &[&str] = &[{lit}];", "A"
+    return Case(f"cat.concat.{form} str" + req_pieces(ps), consts, f"const R: &str = str_concat!({arg});",
+                f'format!("cat.concat.{form} str{{}}", pieces(A))', "R", "&A.concat()")
+
+
+def mk_join(form, kind, sep, ps, sep_arg="S"):
+    sconst, sreq, sreqx, sora = sep_parts_of(kind, sep)
+    lit = ", ".join(rs_str(p) for p in ps)
+    return Case(f"cat.join.{form} {sreq}" + req_pieces(ps), f"{sconst} const A: &[&str] = &[{lit}];",
+                f"const R: &str = str_join!({sep_arg}, A);",
+                f'format!("cat.join.{form} {{}}{{}}", {sreqx}, pieces(A))', "R", f"&A.join({sora})")
+
+
+def mk_slice(ty, tyname, pcs, render, tok):
+    lit = ", ".join("&[" + ", ".join(render(v) for v in p) + "]" for p in pcs)
+    k = sum(len(p) for p in pcs)
+    req = f"cat.slice.{tyname}" + "".join(" [" + ";".join(tok(v) for v in p) + "]" for p in pcs)
+    return Case(req, f"const A: &[&[{ty}]] = &[{lit}];", f"const R: [{ty}; {k}] = slice_concat!({ty}, A);",
+                f'format!("cat.slice.{tyname}{{}}", lsts(A))', "lst(&R)", "lst(&A.concat())", kind="l")
+
+
+def long_cases(tier):
+    out = []
+    ls = long_lengths(tier)
+    catch = ("match std::panic::catch_unwind(|| { %s }) { Ok(s) => s, Err(_) => \"panic\".to_string() }")
+    names = ["a", "ñ", "", "\U0001F600", "bc", "€", "d"]
+    for idx, L in enumerate(ls):
+        f, g = ("a", "m") if idx % 2 == 0 else ("m", "a")
+        L2 = ls[(idx * 7 + 5) % len(ls)]
+        ta, tm = long_text(L, "a", idx), long_text(L, "m", idx)
+        tf, tg = (ta, tm) if f == "a" else (tm, ta)
+        # str_concat!: the long piece after a short one (misaligned output index), as last and only piece
+        out.append(mk_concat_str("L", ["// ", ta, "\n"]))
+        out.append(mk_concat_str("L", ["ñ", tm]))
+        out.append(mk_concat_str("La", [tg, "-", long_text(L2, f, idx + 1)], how="a"))
+        if L in BOUNDARY or idx % 4 == 0:
+            out.append(mk_concat_str("Li", [tf], how="i"))
+        # str_join!: long pieces with a short separator, long str separator, char separator
+        out.append(mk_join("L", "s", "--", ["x", tm, "", long_text(L, "a", idx + 2)]))
+        out.append(mk_join("L", "s", tf, ["foo", "", "bar"]))
+        out.append(mk_join("Lr", "s", tg, [long_text(L2, f, idx + 3), "é"], sep_arg="&S"))
+        out.append(mk_join("L", "c", "€", [ta, tm]))
+        # string::from_iter!: &str items
+        items = [tf, "-", tg]
+        for chain, kc, sc, its in (("L", "", ".iter().copied()", items),
+                                   ("Lrev", ", rev()", ".iter().rev().copied()", items[::-1]),
+                                   ("Lflat", ", flat_map(|s| &[*s, \",\"])", ".iter().flat_map(|s| [*s, \",\"])",
+                                    [x for p in items for x in (p, ",")])):
+            if chain != "L" and not (L in BOUNDARY or idx % 4 == 1):
+                continue
+            lit = ", ".join(rs_str(p) for p in items)
+            out.append(Case(f"cat.from_iter.{chain} str" + req_pieces(its), f"const A: &[&str] = &[{lit}];",
+                            f"const R: &str = string::from_iter!(A{kc});",
+                            f'{{ let items: Vec<&str> = A{sc}.collect(); format!("cat.from_iter.{chain} str{{}}", pieces(&items)) }}',
+                            "R", f"&String::from_iter(A{sc})"))
+        # slice_concat!: u8 / u32 elements (a long inner slice first resp. last), &str elements
+        u8s = [(i * 7 + idx) % 251 + 1 for i in range(L)]
+        out.append(mk_slice("u8", "u8", [u8s, [254, 255, 1]], str, str))
+        u32s = [100000 + i * i * 3 + idx for i in range(L)]
+        out.append(mk_slice("u32", "u32", [[4000000000, 7], [], u32s], str, str))
+        if L in BOUNDARY or idx % 4 == 2:
+            strs = [names[(i * i + idx) % len(names)] for i in range(L)]
+            out.append(mk_slice("&str", "str", [strs[:L // 3], strs[L // 3:]], rs_str, lambda v: hx(v.encode())))
+        # many chars (every element is short, the RESULT is long)
+        if L in BOUNDARY or idx % 4 == 3:
+            cs = [LCH[(i * i + i // 3 + idx) % len(LCH)] for i in range(L)]
+            lit = ", ".join(rs_chr(c) for c in cs)
+            out.append(Case("cat.concat.L chr" + req_chars(cs), f"const C: &[char] = &[{lit}];",
+                            "const R: &str = str_concat!(C);",
+                            'format!("cat.concat.L chr{}", chars(C))', "R", "&C.iter().collect::<String>()"))
+            out.append(Case("cat.from_iter.L chr" + req_chars(cs), f"const C: &[char] = &[{lit}];",
+                            "const R: &str = string::from_iter!(C);",
+                            '{ let items: Vec<char> = C.iter().copied().collect(); format!("cat.from_iter.L chr{}", chars(&items)) }',
+                            "R", "&String::from_iter(C.iter().copied())"))
+        # the fill phases called directly with N = LEN-1 / LEN / LEN+1 (model only)
+        if L in BOUNDARY:
+            ps = ["ab", tf]
+            lit = ", ".join(rs_str(p) for p in ps)
+            k = sum(len(p.encode()) for p in ps)
+            arg = "konst_kernel::string::__NormalizeConcatArg(A).conv()"
+            for n in (k - 1, k, k + 1):
+                out.append(Case(f"cat.k.concat_strs {n} str" + req_pieces(ps), f"const A: &[&str] = &[{lit}];", "",
+                                f'format!("cat.k.concat_strs {n} str{{}}", pieces(A))',
+                                catch % f"hx(konst_kernel::string::concat_strs::<{n}>({arg}).as_str().as_bytes())",
+                                '"?".to_string()', kind="l"))
+            ps = ["a", tg, "bc"]
+            lit = ", ".join(rs_str(p) for p in ps)
+            sconst, sreq, sreqx, _ = sep_parts_of("s", tf)
+            k = sum(len(p.encode()) for p in ps) + 2 * L
+            arg = "konst_kernel::string::StrJoinArgs { sep: konst_kernel::string::__MakeSepArg(S).conv(), slice: A }"
+            for n in (k, k + 1):
+                out.append(Case(f"cat.k.join_strs {n} {sreq}" + req_pieces(ps), f"{sconst} const A: &[&str] = &[{lit}];", "",
+                                f'format!("cat.k.join_strs {n} {{}}{{}}", {sreqx}, pieces(A))',
+                                catch % f"hx(konst_kernel::string::join_strs::<{n}>({arg}).as_str().as_bytes())",
+                                '"?".to_string()', kind="l"))
+    return out
+
+
+# ------------------------------------------------------------------------------------------------
+# NAME HYGIENE: the argument expressions mention an item of the CALLER (const / static / fn / type
+# alias) that is called like an identifier the expansion itself declares or binds. std's concat / join /
+# from_iter have no reserved names, so every such program should compile and give std's result.
+# ------------------------------------------------------------------------------------------------
+
+# every identifier the expansions of the four macros declare or bind (read off the macro sources:
+# konst_kernel/src/string/string_for_konst.rs, slice/slice_for_konst.rs, collect_const.rs and the loop
+# skeleton of __process_iter_args! in iter/combinator_methods.rs)
+HYG_ITEMS = ["__ARGS_81608BFNA5", "__LEN_81608BFNA5", "__CONC_81608BFNA5", "__STR_81608BFNA5",
+             "__func_zxe7hgbnjs", "__COUNT81608BFNA5", "__ARR81608BFNA5", "__STR81608BFNA5"]
+HYG_GENERICS = ["Ret_KO9Y329U2U", "CAP_KO9Y329U2U"]
+HYG_BINDERS = ["cmd", "array", "written_length", "iter", "elem_phantom_ty", "item", "elem_", "next_", "teq",
+               "byteser", "bytes", "item_len", "i", "j", "x"]
+# label / macro-internal token of from_iter!, the plain names the helper constants had before they were
+# mangled (commit 450faa1, findings F20a/F20b), and locals of the kernel FUNCTIONS (not part of any
+# expansion): controls, all of them must be accepted
+HYG_OTHER = ["LEN", "CONC", "STR", "zxe7hgbnjs", "adapter", "length", "slices", "slice", "out", "out_i", "sum", "sep", "first", "utf8e", "N"]
+# names the library mangles on purpose (`..81608BFNA5`, `.._KO9Y329U2U`, `__func_zxe7hgbnjs`)
+HYG_MANGLED = {n for n in HYG_ITEMS + HYG_GENERICS if "81608BFNA5" in n or "KO9Y329U2U" in n or "zxe7hgbnjs" in n}
+
+
+def hyg_predict(macro, frag, decl, name):
+    """what this generator expects rustc to say — used ONLY to decide how a case is compiled (inside
+    the big programs or on its own); the verdict that is compared comes from rustc and from the Lean
+    model (`Hyg.transparent`)"""
+    val = decl != "tyAlias"
+    if macro == "from_iter":
+        if val and name in ("CAP_KO9Y329U2U", "__func_zxe7hgbnjs", "__COUNT81608BFNA5", "__ARR81608BFNA5", "__STR81608BFNA5"):
+            return False
+        if not val and name in ("Ret_KO9Y329U2U", "CAP_KO9Y329U2U"):
+            return False
+        return not (decl in ("const", "static") and name in HYG_BINDERS)
+    if val and name == "__ARGS_81608BFNA5":
+        return False
+    if macro == "slice_concat" and frag == "elem_ty" and val and name in ("__LEN_81608BFNA5", "__CONC_81608BFNA5"):
+        return False          # the element type is pasted into the inner block as well
+    return True
+
+
+def hyg_scope(macro, frag, decl, name):
+    """is `compiles, like the std program` part of the property for this name?  Not for the names the
+    library mangles precisely because macro_rules items are not hygienic, and not for a caller
+    const/static that has the (lower-case) name of a local variable of the from_iter! expansion: an
+    identifier pattern can never shadow a constant (E0530), which no macro_rules macro can avoid."""
+    if name in HYG_MANGLED:
+        return False
+    if macro == "from_iter" and decl in ("const", "static") and name in HYG_BINDERS:
+        return False
+    return True
+
+
+def hygiene_cases(tier):
+    out = []
+
+    def add(macro, frag, decl, use, n, consts, impl, reqhead, reqtail, reqx, imp, ora, kind="s"):
+        """value request = `<reqhead>.h:<decl>/<use>:<NAME><reqtail>`"""
+        form = f"h:{decl}/{use}:{n}"
+        c = Case(f"{reqhead}.{form}{reqtail}", consts, impl, reqx.replace("@FORM@", form), imp, ora, kind=kind)
+        c.hyg = (macro, frag, decl, use, n)
+        c.creq = f"{macro} {frag} {decl}/{use} {n}"
+        c.hyg_expect = hyg_predict(macro, frag, decl, n)
+        c.hyg_scope = hyg_scope(macro, frag, decl, n)
+        out.append(c)
+
+    names = HYG_ITEMS + HYG_GENERICS + HYG_BINDERS + HYG_OTHER
+    P = "68656c6c6f"     # "hello"
+    for n in names:
+        # ---------------- str_concat!($slice)
+        add("str_concat", "slice", "const", "piece", n,
+            f'const {n}: &str = "hello"; const A: &[&str] = &[{n}, " ", "w"];',
+            f'const R: &str = str_concat!(&[{n}, " ", "w"]);',
+            "cat.concat", f" str {P} 20 77", 'format!("cat.concat.@FORM@ str{}", pieces(A))', "R", "&A.concat()")
+        add("str_concat", "slice", "const", "list", n,
+            f'const {n}: &[&str] = &["hello", "w"]; const A: &[&str] = {n};',
+            f"const R: &str = str_concat!({n});",
+            "cat.concat", f" str {P} 77", 'format!("cat.concat.@FORM@ str{}", pieces(A))', "R", "&A.concat()")
+        add("str_concat", "slice", "const", "chr", n,
+            f"const {n}: char = 'h'; const C: &[char] = &[{n}, '\\u{{f1}}'];",
+            f"const R: &str = str_concat!(&[{n}, '\\u{{f1}}']);",
+            "cat.concat", " chr 68 f1", 'format!("cat.concat.@FORM@ chr{}", chars(C))', "R", "&C.iter().collect::<String>()")
+        add("str_concat", "slice", "const", "count", n,
+            f'const {n}: usize = 2; const A: &[&str] = &["ab"; {n}];',
+            f'const R: &str = str_concat!(&["ab"; {n}]);',
+            "cat.concat", " str 6162 6162", 'format!("cat.concat.@FORM@ str{}", pieces(A))', "R", "&A.concat()")
+        add("str_concat", "slice", "fn", "piece", n,
+            f'const fn {n}() -> &\'static str {{ "hello" }} const A: &[&str] = &[{n}(), "w"];',
+            f'const R: &str = str_concat!(&[{n}(), "w"]);',
+            "cat.concat", f" str {P} 77", 'format!("cat.concat.@FORM@ str{}", pieces(A))', "R", "&A.concat()")
+        add("str_concat", "slice", "tyAlias", "cast", n,
+            f'type {n} = &\'static str; const A: &[{n}] = &["hello", "w"];',
+            f'const R: &str = str_concat!(&["hello" as {n}, "w"]);',
+            "cat.concat", f" str {P} 77", 'format!("cat.concat.@FORM@ str{}", pieces(A))', "R", "&A.concat()")
+        # ---------------- str_join!($sep, $slice)
+        AW = 'const A: &[&str] = &["a", "w"];'
+        add("str_join", "sep", "const", "str", n, f'const {n}: &str = "--"; {AW}',
+            f"const R: &str = str_join!({n}, A);",
+            "cat.join", " s:2d2d 61 77", f'format!("cat.join.@FORM@ {{}}{{}}", seps({n}), pieces(A))', "R", f"&A.join({n})")
+        add("str_join", "sep", "const", "refstr", n, f'const {n}: &str = "--"; {AW}',
+            f"const R: &str = str_join!(&{n}, A);",
+            "cat.join", " s:2d2d 61 77", f'format!("cat.join.@FORM@ {{}}{{}}", seps({n}), pieces(A))', "R", f"&A.join({n})")
+        add("str_join", "sep", "const", "chr", n, f"const {n}: char = '\\u{{20ac}}'; {AW}",
+            f"const R: &str = str_join!({n}, A);",
+            "cat.join", " c:20ac 61 77", f'format!("cat.join.@FORM@ {{}}{{}}", sepc({n}), pieces(A))', "R",
+            f"&A.join(&*{n}.to_string())")
+        add("str_join", "sep", "fn", "str", n, f'const fn {n}() -> &\'static str {{ "--" }} {AW}',
+            f"const R: &str = str_join!({n}(), A);",
+            "cat.join", " s:2d2d 61 77", f'format!("cat.join.@FORM@ {{}}{{}}", seps({n}()), pieces(A))', "R", f"&A.join({n}())")
+        add("str_join", "sep", "tyAlias", "cast", n, f"type {n} = &'static str; {AW}",
+            f'const R: &str = str_join!("--" as {n}, A);',
+            "cat.join", " s:2d2d 61 77", 'format!("cat.join.@FORM@ {}{}", seps("--"), pieces(A))', "R", '&A.join("--")')
+        add("str_join", "slice", "const", "piece", n,
+            f'const {n}: &str = "hello"; const A: &[&str] = &[{n}, "w"];',
+            f'const R: &str = str_join!("-", &[{n}, "w"]);',
+            "cat.join", f" s:2d {P} 77", 'format!("cat.join.@FORM@ {}{}", seps("-"), pieces(A))', "R", '&A.join("-")')
+        add("str_join", "slice", "const", "list", n,
+            f'const {n}: &[&str] = &["hello", "w"]; const A: &[&str] = {n};',
+            f"const R: &str = str_join!('-', {n});",
+            "cat.join", f" c:2d {P} 77", "format!(\"cat.join.@FORM@ {}{}\", sepc('-'), pieces(A))", "R", '&A.join("-")')
+        add("str_join", "slice", "const", "count", n,
+            f'const {n}: usize = 3; const A: &[&str] = &["ab"; {n}];',
+            f'const R: &str = str_join!(", ", &["ab"; {n}]);',
+            "cat.join", " s:2c20 6162 6162 6162", 'format!("cat.join.@FORM@ {}{}", seps(", "), pieces(A))', "R", '&A.join(", ")')
+        add("str_join", "slice", "fn", "piece", n,
+            f'const fn {n}() -> &\'static str {{ "hello" }} const A: &[&str] = &[{n}(), "w"];',
+            f'const R: &str = str_join!("-", &[{n}(), "w"]);',
+            "cat.join", f" s:2d {P} 77", 'format!("cat.join.@FORM@ {}{}", seps("-"), pieces(A))', "R", '&A.join("-")')
+        add("str_join", "slice", "tyAlias", "cast", n,
+            f'type {n} = &\'static str; const A: &[{n}] = &["hello", "w"];',
+            f'const R: &str = str_join!("-", &["hello" as {n}, "w"]);',
+            "cat.join", f" s:2d {P} 77", 'format!("cat.join.@FORM@ {}{}", seps("-"), pieces(A))', "R", '&A.join("-")')
+        # ---------------- slice_concat!($elem_ty, $slice)
+        SL = 'format!("cat.slice.@FORM@{}", lsts(A))'
+        add("slice_concat", "slice", "const", "piece", n,
+            f"const {n}: &[u8] = &[3, 5, 8]; const A: &[&[u8]] = &[{n}, &[13, 21]];",
+            f"const R: [u8; 5] = slice_concat!(u8, &[{n}, &[13, 21]]);",
+            "cat.slice", " [3;5;8] [13;21]", SL, "lst(&R)", "lst(&A.concat())", kind="l")
+        add("slice_concat", "slice", "const", "list", n,
+            f"const {n}: &[&[u8]] = &[&[3, 5, 8], &[13, 21]]; const A: &[&[u8]] = {n};",
+            f"const R: [u8; 5] = slice_concat!(u8, {n});",
+            "cat.slice", " [3;5;8] [13;21]", SL, "lst(&R)", "lst(&A.concat())", kind="l")
+        add("slice_concat", "slice", "const", "elem", n,
+            f"const {n}: u8 = 3; const A: &[&[u8]] = &[&[{n}, 5], &[8]];",
+            f"const R: [u8; 3] = slice_concat!(u8, &[&[{n}, 5], &[8]]);",
+            "cat.slice", " [3;5] [8]", SL, "lst(&R)", "lst(&A.concat())", kind="l")
+        add("slice_concat", "slice", "fn", "piece", n,
+            f"const fn {n}() -> &'static [u8] {{ &[3, 5, 8] }} const A: &[&[u8]] = &[{n}(), &[13, 21]];",
+            f"const R: [u8; 5] = slice_concat!(u8, &[{n}(), &[13, 21]]);",
+            "cat.slice", " [3;5;8] [13;21]", SL, "lst(&R)", "lst(&A.concat())", kind="l")
+        add("slice_concat", "slice", "tyAlias", "cast", n,
+            f"type {n} = u8; const A: &[&[u8]] = &[&[3, 5], &[8]];",
+            f"const R: [u8; 3] = slice_concat!(u8, &[&[3 as {n}, 5], &[8]]);",
+            "cat.slice", " [3;5] [8]", SL, "lst(&R)", "lst(&A.concat())", kind="l")
+        # the element type mentions the caller's item (3 elements of type [u8; 2]: a captured `LEN`
+        # would have the wrong value)
+        add("slice_concat", "elem_ty", "const", "arraylen", n,
+            f"const {n}: usize = 2; const A: &[&[[u8; {n}]]] = &[&[[1, 2], [3, 4]], &[[5, 6]]];",
+            f"const R: [[u8; {n}]; 3] = slice_concat!([u8; {n}], A);",
+            "cat.slice", " [1,2;3,4] [5,6]", SL, "lst(&R)", "lst(&A.concat())", kind="l")
+        add("slice_concat", "elem_ty", "tyAlias", "elem", n,
+            f"type {n} = u8; const A: &[&[{n}]] = &[&[3, 5], &[8]];",
+            f"const R: [{n}; 3] = slice_concat!({n}, A);",
+            "cat.slice", " [3;5] [8]", SL, "lst(&R)", "lst(&A.concat())", kind="l")
+        # ---------------- string::from_iter!($($rem)*)
+        add("from_iter", "rem", "const", "src", n,
+            f'const {n}: &[&str] = &["hello", "w"];',
+            f"const R: &str = string::from_iter!({n});",
+            "cat.from_iter", f" str {P} 77", f'format!("cat.from_iter.@FORM@ str{{}}", pieces({n}))', "R",
+            f"&String::from_iter({n}.iter().copied())")
+        add("from_iter", "rem", "static", "src", n,
+            f'static {n}: &[&str] = &["hello", "w"];',
+            f"const R: &str = string::from_iter!({n});",
+            "cat.from_iter", f" str {P} 77", f'format!("cat.from_iter.@FORM@ str{{}}", pieces({n}))', "R",
+            f"&String::from_iter({n}.iter().copied())")
+        AEB = 'const A: &[&str] = &["a", "", "b"];'
+        add("from_iter", "rem", "const", "closure", n,
+            f'const {n}: &str = "hello"; {AEB}',
+            f"const R: &str = string::from_iter!(A, map(|s| if s.is_empty() {{ {n} }} else {{ *s }}));",
+            "cat.from_iter", f" str 61 {P} 62",
+            f'{{ let items: Vec<&str> = A.iter().map(|s| if s.is_empty() {{ {n} }} else {{ *s }}).collect(); format!("cat.from_iter.@FORM@ str{{}}", pieces(&items)) }}',
+            "R", f"&String::from_iter(A.iter().map(|s| if s.is_empty() {{ {n} }} else {{ *s }}))")
+        # (a tuple constant: were the name captured by the const generic, or taken for the constant
+        # pattern of the loop's `if let Some((elem_, next_))`, the types could not agree by accident)
+        add("from_iter", "rem", "const", "range", n,
+            f"const {n}: (usize,) = (3,);",
+            f'const R: &str = string::from_iter!(0..{n}.0, map(|_| "ab"));',
+            "cat.from_iter", " str 6162 6162 6162",
+            f'{{ let items: Vec<&str> = (0..{n}.0).map(|_| "ab").collect(); format!("cat.from_iter.@FORM@ str{{}}", pieces(&items)) }}',
+            "R", f'&String::from_iter((0..{n}.0).map(|_| "ab"))')
+        add("from_iter", "rem", "fn", "closure", n,
+            f"const fn {n}(s: &str) -> &str {{ s }} {AEB}",
+            f"const R: &str = string::from_iter!(A, map(|s| {n}(*s)));",
+            "cat.from_iter", " str 61 - 62",
+            f'{{ let items: Vec<&str> = A.iter().map(|s| {n}(*s)).collect(); format!("cat.from_iter.@FORM@ str{{}}", pieces(&items)) }}',
+            "R", f"&String::from_iter(A.iter().map(|s| {n}(*s)))")
+        add("from_iter", "rem", "tyAlias", "closure", n,
+            f"type {n} = &'static str; {AEB}",
+            f"const R: &str = string::from_iter!(A, map(|s| {{ let t: {n} = *s; t }}));",
+            "cat.from_iter", " str 61 - 62",
+            f'{{ let items: Vec<&str> = A.iter().map(|s| {{ let t: {n} = *s; t }}).collect(); format!("cat.from_iter.@FORM@ str{{}}", pieces(&items)) }}',
+            "R", f"&String::from_iter(A.iter().map(|s| {{ let t: {n} = *s; t }}))")
+    return out
+
+
 def all_cases(tier):
-    return concat_cases(tier) + join_cases(tier) + slice_cases(tier) + from_iter_cases(tier) + kernel_cases(tier)
+    return (concat_cases(tier) + join_cases(tier) + slice_cases(tier) + from_iter_cases(tier) + kernel_cases(tier)
+            + long_cases(tier) + hygiene_cases(tier))
 
 
 def program(cases, idxs, with_impl=None):
@@ -468,9 +830,10 @@ def kernel_rlib():
 
 
 def settle(d, cases, gi, g, src0, err, extra):
-    """program `gi` does not compile: some constant does not evaluate. Attribute the errors to cases
-    (rustc names the line of each failing constant; one case per line), else one metadata-only compile
-    per case; then rebuild the program with those cases' macro calls left out. Returns (exe, bad)."""
+    """program `gi` does not compile: some constant does not evaluate / some invocation is rejected.
+    Attribute the errors to cases (rustc names the line of each failing item; one case per line) and
+    rebuild the program with those cases' macro calls left out — repeatedly, because rustc may stop
+    before it has reported every case; else one metadata-only compile per case. Returns (exe, bad)."""
     lines = program(cases, g).split("\n")
     line_case = {}
     for ln, text in enumerate(lines, 1):
@@ -478,27 +841,33 @@ def settle(d, cases, gi, g, src0, err, extra):
         if m:
             line_case[ln] = int(m.group(1))
     bad = set()
-    for m in re.finditer(re.escape(os.path.basename(src0)) + r":(\d+):\d+", err):
-        if int(m.group(1)) in line_case:
-            bad.add(line_case[int(m.group(1))])
     exe = os.path.join(d, f"p{gi}_b")
-    if bad:
-        src = os.path.join(d, f"p{gi}_b.rs")
+    src = os.path.join(d, f"p{gi}_b.rs")
+    srcname = os.path.basename(src0)
+    for _round in range(8):
+        new = set()
+        for m in re.finditer(re.escape(srcname) + r":(\d+):\d+", err):
+            if int(m.group(1)) in line_case:
+                new.add(line_case[int(m.group(1))])
+        if not (new - bad):
+            break
+        bad |= new
         with open(src, "w") as f:
             f.write(program(cases, g, with_impl=lambda i: i not in bad))
-        if common.compile_one(src, exe, "link", extra)[0] == 0:
+        rc, err = common.compile_one(src, exe, "link", extra)
+        if rc == 0:
             return exe, bad
+        srcname = os.path.basename(src)
     single = []
     for i in g:
-        src = os.path.join(d, f"c{i}.rs")
-        with open(src, "w") as f:
+        src1 = os.path.join(d, f"c{i}.rs")
+        with open(src1, "w") as f:
             f.write(program(cases, [i]))
-        single.append((src, os.path.join(d, f"c{i}.rmeta"), "metadata", extra))
+        single.append((src1, os.path.join(d, f"c{i}.rmeta"), "metadata", extra))
     sres = common.compile_many(single, workers=4)
     bad = {i for i, (rc1, _) in zip(g, sres) if rc1 != 0}
     if not bad:
         raise RuntimeError("program fails as a whole but every case compiles alone: " + err[-1500:])
-    src = os.path.join(d, f"p{gi}_b.rs")
     with open(src, "w") as f:
         f.write(program(cases, g, with_impl=lambda i: i not in bad))
     rc2, err2 = common.compile_one(src, exe, "link", extra)
@@ -512,12 +881,21 @@ def generate(ctx):
     tier = ctx["tier"]
     cases = all_cases(tier)
     if ctx.get("only") is not None:
-        cases = [c for c in cases if c.req in ctx["only"]]
+        only = ctx["only"]
+        cases = [c for c in cases if c.req in only
+                 or (hasattr(c, "creq") and ("cat.compile " + c.creq in only or "cat.compile_m " + c.creq in only))]
     d = common.workdir(ctx["pid"] + "_cat")
     # opt-level 0: the programs only print constants; const evaluation does not depend on it
     extra = ("--extern", "konst_kernel=" + kernel_rlib(), "-C", "opt-level=0")
-    nprog = 16
-    groups = [list(range(k, len(cases), nprog)) for k in range(nprog)]
+    # hygiene cases the expansion is expected to reject are judged on their own (metadata only); the
+    # others run inside the programs like every other case (in programs of their own, so that a
+    # rejected invocation does not make the other programs compile twice)
+    is_hyg = lambda c: hasattr(c, "hyg")
+    alone = [i for i, c in enumerate(cases) if is_hyg(c) and not c.hyg_expect]
+    plain = [i for i, c in enumerate(cases) if not is_hyg(c)]
+    hygin = [i for i, c in enumerate(cases) if is_hyg(c) and c.hyg_expect]
+    nprog, nhyg = 16, 4
+    groups = [plain[k::nprog] for k in range(nprog)] + [hygin[k::nhyg] for k in range(nhyg)]
     groups = [g for g in groups if g]
     jobs = []
     for gi, g in enumerate(groups):
@@ -525,10 +903,36 @@ def generate(ctx):
         with open(src, "w") as f:
             f.write(program(cases, g))
         jobs.append((src, os.path.join(d, f"p{gi}"), "link", extra))
+    njobs = len(jobs)
+    for i in alone:
+        src = os.path.join(d, f"h{i}.rs")
+        with open(src, "w") as f:
+            f.write(program(cases, [i]))
+        jobs.append((src, os.path.join(d, f"h{i}.rmeta"), "metadata", extra))
+    if alone:
+        # the same callers' items with std only: must compile (else the verdict `reject` says nothing)
+        src = os.path.join(d, "h_std.rs")
+        with open(src, "w") as f:
+            f.write(program(cases, alone, with_impl=lambda i: False))
+        jobs.append((src, os.path.join(d, "h_std.rmeta"), "metadata", extra))
     res = common.compile_many(jobs)
+    if alone and res[-1][0] != 0:
+        raise RuntimeError("std-only hygiene program does not compile: " + res[-1][1][-1500:])
+    alone_ok = {i: res[njobs + k][0] == 0 for k, i in enumerate(alone)}
     failed_cases = set()
     exes = {gi: jobs[gi][1] for gi in range(len(groups))}
-    failing = [gi for gi, (rc, _) in enumerate(res) if rc != 0]
+    failing = [gi for gi in range(len(groups)) if res[gi][0] != 0]
+    surprise = [i for i in alone if alone_ok[i]]
+    if surprise:
+        # accepted although the expansion was expected to reject it: what does it evaluate to?
+        src = os.path.join(d, "h_surprise.rs")
+        with open(src, "w") as f:
+            f.write(program(cases, surprise))
+        rc, err = common.compile_one(src, os.path.join(d, "h_surprise"), "link", extra)
+        if rc != 0:
+            raise RuntimeError("cases that compile alone do not compile together: " + err[-1500:])
+        groups.append(surprise)
+        exes[len(groups) - 1] = os.path.join(d, "h_surprise")
     with concurrent.futures.ThreadPoolExecutor(max_workers=8) as ex:
         futs = {gi: ex.submit(settle, d, cases, gi, groups[gi], jobs[gi][0], res[gi][1], extra) for gi in failing}
         for gi, f in futs.items():
@@ -552,9 +956,24 @@ def generate(ctx):
                 raise RuntimeError(f"request mismatch for case {i}: program says {req!r}, generator says {cases[i].req!r}")
             if i in failed_cases:
                 imp = "panic"
-            rows[i] = (req, imp, ora, True)
-    if len(rows) != len(cases):
-        raise RuntimeError(f"{len(cases) - len(rows)} cases produced no row")
+            rows[i] = (req, imp, ora, getattr(cases[i], "hyg_scope", True))
+    if len(rows) != len(cases) - len(alone) + len(surprise):
+        raise RuntimeError(f"{len(cases) - len(alone) + len(surprise) - len(rows)} cases produced no row")
+    allrows = [rows[i] for i in range(len(cases)) if i in rows]
+    # the compile verdicts of the hygiene cases
+    nrej = 0
+    for i, c in enumerate(cases):
+        if not is_hyg(c):
+            continue
+        ok = alone_ok[i] if i in alone_ok else (i not in failed_cases)
+        nrej += 0 if ok else 1
+        verdict = "accept" if ok else "reject"
+        allrows.append(("cat.compile " + c.creq, verdict, "accept", c.hyg_scope))
+        if not c.hyg_scope:
+            # outside the property as far as std is concerned, but still tied to the model
+            allrows.append(("cat.compile_m " + c.creq, verdict, "?", True))
     ctx["extra"]["c20_programs"] = {"cases": len(cases), "programs": len(groups),
-                                    "cases_not_compiling": len(failed_cases), "programs_rebuilt": len(failing)}
-    return common.write_tsv(os.path.join(d, "rows.tsv"), [rows[i] for i in range(len(cases))])
+                                    "cases_not_compiling": len(failed_cases), "programs_rebuilt": len(failing),
+                                    "hygiene_cases": sum(1 for c in cases if is_hyg(c)),
+                                    "hygiene_compiled_alone": len(alone), "hygiene_rejected": nrej}
+    return common.write_tsv(os.path.join(d, "rows.tsv"), allrows)
